@@ -22,6 +22,11 @@ def noise_val():
     return st.floats(min_value=0.05, max_value=2.0, allow_nan=False, allow_subnormal=False)
 
 
+# calibration_map is annotated dict[Symbol, float]: python floats and numpy float scalars. (Exact rationals are NOT in the
+# domain: np.sin(Fraction) raises as soon as a calibration symbol sits inside a function — DESIGN §10 item 17.)
+CALIB_TYPES = ("float", "float", "npfloat", "npfloat32")
+
+
 @st.composite
 def model_specs(
     draw,
@@ -44,6 +49,9 @@ def model_specs(
     allow_positive=True,
     allow_abs2=None,
     template=None,  # None | "bilinear" | "mixed" (one model in four bilinear)
+    # how calibration values are handed over: python floats, exact rationals (sympy.Rational / fractions.Fraction, q<=1000)
+    # or numpy scalars; all are accepted by FormaK (probed) and are CALLER-OWNED inputs that must come back unchanged
+    calib_types=("float",),
     # inverse-composition nodes (atan(tan u), sqrt(u**2) ...) at the OUTERMOST level of state updates only: nested under
     # other functions (via the pool) or differentiated in sensors they make sympy's simplify take 10 s+
     allow_wrap=False,
@@ -132,6 +140,11 @@ def model_specs(
         "calib": draw(st.sampled_from(["set", "set", "list"])),
     }
     calib_values = {k: (draw(_val(0.5, BOX)) if k in positive else draw(signed_val())) for k in calib}
+    calib_type = draw(st.sampled_from(list(calib_types)))
+    if calib_type == "npfloat32":
+        import numpy as np
+
+        calib_values = {k: float(np.float32(v)) for k, v in calib_values.items()}  # exactly representable in binary32
     process_noise = {c: draw(noise_val()) for c in control}
 
     nsens = draw(st.integers(*n_sensors))
@@ -179,6 +192,7 @@ def model_specs(
         "config": cfg,
         "pool_size": len(pooltrees),
         "symbol_keyed": symbol_keyed,
+        **({"calib_type": calib_type} if calib_type != "float" else {}),
     }
 
 
@@ -274,7 +288,37 @@ def ui_model(spec, tab=None):
 
 def calibration_map(spec, tab=None):
     tab = tab or symtab(spec)
-    return {tab[k]: spec["calib_values"][k] for k in spec["calib"]}
+    return {tab[k]: _calib_value(spec, spec["calib_values"][k]) for k in spec["calib"]}
+
+
+def _calib_value(spec, v):
+    kind = spec.get("calib_type")
+    if kind == "rational":
+        import sympy
+
+        return sympy.Rational(v).limit_denominator(1000)
+    if kind == "fraction":
+        import fractions
+
+        return fractions.Fraction(v).limit_denominator(1000)
+    if kind == "npfloat":
+        import numpy as np
+
+        return np.float64(v)
+    if kind == "npfloat32":
+        import numpy as np
+
+        return np.float32(v)
+    return v
+
+
+def same_values(a, b):
+    """caller-owned parameter maps compared the way scikit-learn's estimator checks do (joblib.hash of each parameter before
+    and after): same keys, and every value of the same TYPE and equal — 0.3 replaced by numpy.float64(0.3), or an exact
+    number replaced by its float, is a modified parameter"""
+    if isinstance(a, dict) and isinstance(b, dict):
+        return set(a) == set(b) and all(same_values(a[k], b[k]) for k in a)
+    return type(a) is type(b) and bool(a == b)
 
 
 def _noise_value(spec, v):
